@@ -167,6 +167,27 @@ def discrete_case(rep, drv, rng, th):
 			bad.append('renumbering the nodes changed the answer: %s cost %r vs %s cost %r' % ([S2[order[j]] for j in range(N)], C2, pyS, C_star))
 	except Exception as e:
 		bad.append('renumbered instance raised %s: %s' % (err_enum(e), str(e)[:100]))
+	# network form: the same instance passed as a SupplyChainNetwork with arbitrary node indices (optimise and evaluate)
+	try:
+		from stockpyl.supply_chain_network import serial_system
+		with warnings.catch_warnings():
+			warnings.simplefilter('ignore')
+			lab = rng.sample(range(0, 40), N)          # downstream first
+			up_first = list(reversed(lab))
+			loc = {lab[j]: sum(h[j:]) for j in range(N)}
+			net = serial_system(N, node_order_in_system=up_first, echelon_holding_cost={lab[j]: h[j] for j in range(N)}, local_holding_cost=loc,
+								stockout_cost={lab[j]: (p if j == 0 else 0) for j in range(N)}, shipment_lead_time={lab[j]: Ls[j] for j in range(N)},
+								demand_source={lab[j]: (ds if j == 0 else None) for j in range(N)}, policy_type='BS', base_stock_level=0)
+			S3, C3 = ssm_serial.optimize_base_stock_levels(network=net)
+			ec3 = ssm_serial.expected_cost({lab[j]: pyS[j] for j in range(N)}, network=net)
+			ecp = ssm_serial.expected_cost({j + 1: pyS[j] for j in range(N)}, **kw)
+		if not close(C3, C_star) or [int(S3[lab[j]]) for j in range(N)] != pyS:
+			bad.append('network form (indices %s): S*=%s cost %r, parameter form %s cost %r' % (lab, [S3[lab[j]] for j in range(N)], C3, pyS, C_star))
+		if not close(ec3, ecp):
+			bad.append('expected_cost of the same levels: network form (indices %s) %r, parameter form %r' % (lab, ec3, ecp))
+		rep.count('ssm:network-form-checked')
+	except Exception as e:
+		bad.append('network form raised %s: %s' % (err_enum(e), str(e)[:100]))
 	if not same or bad:
 		rep.diff('ssm-discrete', 'python S*=%s cost %r; model S*=%s cost %r %s' % (pyS, C_star, mo['S'], float(unfr(mo['cost'])), '; '.join(bad[:3])), case,
 				 py=[pyS, C_star], model=mo, oracle=bool(bad), theorem=THEOREM if same else None)
